@@ -86,7 +86,7 @@ static bool py_sel(long n, const L& r /*mask,start,stop,step*/, Sel& o) {
     return ref::slice_adjust(n, s, o.first, o.step, o.len);
 }
 
-// model of a full basic index on an RArr; nullopt when any kept axis has length 0 (no empty arrays in nmtools: separate bucket)
+// model of a full basic index on an RArr; when a kept axis has length 0 the model is the empty array of that shape (zero_extent is set)
 static ROpt model_nd(const RArr& a, const LL& parts, bool& zero_extent, bool& index_error) {
     zero_extent = false; index_error = false;
     int d = a.dim(); int nell = 0, consumed = 0;
@@ -101,7 +101,7 @@ static ROpt model_nd(const RArr& a, const LL& parts, bool& zero_extent, bool& in
         else if (p[0] == K_ALL) { sel[(size_t)x] = {0, 1, n}; rs.push_back(n); }
         else { Sel s; L r(p.begin() + 1, p.end()); if (!py_sel(n, r, s)) { index_error = true; return std::nullopt; } sel[(size_t)x] = s; rs.push_back(s.len); if (s.len == 0) zero_extent = true; }
     }
-    if (zero_extent) return std::nullopt;
+    if (zero_extent) return ROpt(RArr(rs));   // the conforming answer is the EMPTY array of exactly this shape (a zero extent, no element)
     return ref::gather(a, rs, [&](const L& i) { L s((size_t)d); size_t k = 0; for (int x = 0; x < d; x++) { long j = keep[(size_t)x] ? i[k++] : 0; s[(size_t)x] = sel[(size_t)x].first + j * sel[(size_t)x].step; } return s; });
 }
 
@@ -169,8 +169,9 @@ template <typename A> static Obs dynamic_nd(const A& a, const LL& parts) {
 
 static Outcome verdict(const Obs& got, const ROpt& want, bool zero, bool ierr, bool nontriv, const char* enc) {
     uint64_t h = got.hash();
-    if (zero) {   // Python gives an empty result; the only conforming answers are an empty shape product - nmtools cannot represent it
+    if (zero) {   // Python gives an empty result: the only conforming answer is an array of exactly the model's shape (with its zero extent) and no element
         if (!got.has) return Outcome::bad("rejects-valid", std::string(enc) + ": Python gives a zero-length axis, nmtools reports Nothing", true, h);
+        if (want && got.shape == want->shape && got.data.empty()) return Outcome::ok(true, h);
         return Outcome::bad("wrong", std::string(enc) + ": Python gives a zero-length axis, got " + got.str(), true, h);
     }
     if (ierr) { if (!got.has) return Outcome::ok(true, h); return Outcome::bad("accepts-invalid", std::string(enc) + ": Python raises IndexError, got " + got.str(), true, h); }
@@ -234,7 +235,7 @@ Outcome nmc_execute(const Case& c) {
         const auto res = ix::shape_slice(shp, nmtools_tuple{s, e, st});
         L got = nmc::to_L(nm::unwrap(res));
         uint64_t h = nmc::hash_vec(got);
-        if (sel.len == 0) return Outcome::bad("wrong", "Python gives a zero-length axis, shape_slice gives " + nmc::str(got), true, h);
+        if (sel.len == 0) { if (got == L{0}) return Outcome::ok(true, h); return Outcome::bad("wrong", "Python gives a zero-length axis, shape_slice gives " + nmc::str(got), true, h); }
         if (got != L{sel.len}) return Outcome::bad("wrong", "shape_slice = " + nmc::str(got) + " expected (" + std::to_string(sel.len) + ")", true, h);
         for (long k : {0L, sel.len - 1, sel.len / 2}) {
             nmtools_list<size_t> idx; idx.push_back((size_t)k);
